@@ -18,7 +18,7 @@ def run(ver):
     return ver.finish("exploration",
                       "S->I: for each of the ~85 types of the family (every Serializer/Deserializer method, all four enum representations, flatten, "
                       "unknown-length sequences and maps) TLC emits the documented representation of boundary values in five input modes; the bridge must "
-                      "deserialise each to that value consuming it exactly and serialise the value to the reference bytes. I->S: per type 40 (quick) / 300 "
+                      "deserialise each to that value consuming it exactly and serialise the value to the reference bytes. I->S: per type 40 (quick) / 1200 "
                       "(thorough) random values: the bytes written must be the documented representation and deserialise back to an equal value; a randomly "
                       "re-framed encoding yields that value or an error; distinct = values drawn",
                       checker_cmd="tlc MC_C17 + vh cases + tlc Trace_Serde")
